@@ -266,7 +266,7 @@ def nxt(x, steps):
     return x
 
 
-def gen_cases(rng, n_random, with_large=True):
+def gen_cases(rng, n_random, with_large=True, thin=1):
     """[(angle, tol, class)] — doubles.  Deterministic families first, then random ones."""
     cs = []
     two_pi = 2 * math.pi
@@ -303,6 +303,8 @@ def gen_cases(rng, n_random, with_large=True):
                     cs.append((two_pi + x, tol, "near-2pi"))
         for st in (-2, -1, 0, 1, 2):
             cs.append((nxt(tol, st), tol, "near-0"))
+    if thin > 1:   # quick tier: every thin-th member of the deterministic families (all special values)
+        cs = [c for i, c in enumerate(cs) if c[2] == "special" or i % thin == 0]
     # random
     for _ in range(n_random):
         r = rng.random()
@@ -548,7 +550,7 @@ Import ListNotations.
 """
 
 
-def correspond_front(ctx, fcases, per_file=1000):
+def correspond_front(ctx, fcases, per_file=500):
     """fcases: [(angle, tol, rest, thr)] floats -> {index: bits} for bits != 0; None if a file did not compile."""
     files = []
     for i in range(0, len(fcases), per_file):
@@ -559,7 +561,7 @@ def correspond_front(ctx, fcases, per_file=1000):
                 f"mkF {flit(a)} {flit(t)} {flit(r)} {flit(h)}" for a, t, r, h in fcases[i:i + per_file]) + "].\n")
             f.write("Eval vm_compute in (ffailing cases).\n")
         files.append((name, i))
-    res = ctx.run_case_files([f for f, _ in files], timeout=900, jobs=14)
+    res = ctx.run_case_files([f for f, _ in files], timeout=900, jobs=10)
     codes = {}
     for name, base in files:
         r = res[name]
@@ -579,7 +581,7 @@ def correspond(ctx, cases, per_file=500):
         name = f"cases_{i // per_file:04d}.v"
         write_case_file(os.path.join(ctx.build, name), cases[i:i + per_file])
         files.append((name, i))
-    res = ctx.run_case_files([f for f, _ in files], timeout=900, jobs=14)
+    res = ctx.run_case_files([f for f, _ in files], timeout=900, jobs=10)
     codes = {}
     for name, base in files:
         r = res[name]
